@@ -58,6 +58,15 @@ func Main(prop string, gen func(r *vh.Rand, i int) *Scenario, probes func() []*S
 			ident[sc.Name] = fmt.Sprintf("%d:%d", f.Seed, i)
 		}
 	}
+	if probes != nil && f.Replay == "" {
+		// the accept/reject probes ride in the first batch (BuildAndRun attributes rejections)
+		ps := probes()
+		for _, p := range ps {
+			p.Probe = true
+			ident[p.Name] = "probe:" + p.Name
+		}
+		scs = append(ps, scs...)
+	}
 	const batch = 150
 	for b := 0; b < len(scs); b += batch {
 		e := b + batch
@@ -65,9 +74,6 @@ func Main(prop string, gen func(r *vh.Rand, i int) *Scenario, probes func() []*S
 			e = len(scs)
 		}
 		runBatch(o, work, scs[b:e], ident)
-	}
-	if probes != nil && f.Replay == "" {
-		runProbes(o, work, probes())
 	}
 	os.RemoveAll(work)
 	os.RemoveAll(filepath.Join(f.Out, "imp"))
@@ -84,6 +90,10 @@ func runBatch(o *vh.Out, work string, scs []*Scenario, ident map[string]string) 
 	}
 	norm := NormalizeGo(res.GoText)
 	for _, sc := range scs {
+		if sc.Probe {
+			probeCase(o, res, nil, sc)
+			continue
+		}
 		op := "mini"
 		if sc.NoOracle {
 			op = "minilow" // outside the property's reading: the model of the lowering only
@@ -133,6 +143,12 @@ func runBatch(o *vh.Out, work string, scs []*Scenario, ident map[string]string) 
 func runProbes(o *vh.Out, work string, ps []*Scenario) {
 	res, err := BuildAndRun(work, ps, 30*time.Second)
 	for _, p := range ps {
+		probeCase(o, res, err, p)
+	}
+}
+
+func probeCase(o *vh.Out, res *Built, err error, p *Scenario) {
+	{
 		line := "minic\t" + p.Prog.SExp() + "\tprobe:" + p.Name
 		impl := "accept"
 		switch {
